@@ -157,3 +157,67 @@ func HarnessC08DecodeProviderFaults() {
 	}
 	vReach("end")
 }
+
+// ---- C08/C13: an empty ammo source under the generic provider. The decoder reads the way
+// jsoniter's iterator does (a Read that returns no data and no error is retried at once), which is
+// what the registered "json" provider runs on: the provider must end (with or without an error) and
+// never spin, whatever the pass bound.
+func HarnessC08DecodeProviderEmptySource() {
+	vSpinIsViolation()
+	E := int(vConcretize(vNondetInt("E", 0, 1)))
+	limit := int(vNondetInt("limit", 0, 2))
+	passes := int(vNondetInt("passes", 0, 2))
+	content := strings.Repeat("a\n", E)
+	var src core.DataSource = &hSrc{content}
+	if vNondetBool("inlineSource") {
+		src = datasource.NewInline(datasource.InlineConfig{Data: content})
+	}
+	conf := DecodeProviderConfig{Queue: AmmoQueueConfig{AmmoQueueSize: 1}, Source: src, Limit: limit, Passes: passes}
+	newDec := func(deps core.ProviderDeps, src io.Reader) (AmmoDecoder, error) {
+		return AmmoDecoderFunc(func(a core.Ammo) error {
+			var line []byte
+			buf := make([]byte, 1)
+			for {
+				n, err := src.Read(buf)
+				if n == 0 {
+					if err != nil {
+						return err
+					}
+					continue // (jsoniter's loadMore: nothing read, no error: read again)
+				}
+				if buf[0] == '\n' {
+					a.(*hLineAmmo).line = string(line)
+					return nil
+				}
+				line = append(line, buf[0])
+			}
+		}), nil
+	}
+	p := NewDecodeProvider(func() core.Ammo { return &hLineAmmo{} }, newDec, conf)
+	ctx, cancel := context.WithCancel(context.Background())
+	done := false
+	var wg sync.WaitGroup
+	wg.Add(1)
+	go func() {
+		defer wg.Done()
+		_ = p.Run(ctx, core.ProviderDeps{Log: zap.NewNop()})
+		done = true
+	}()
+	got := 0
+	for got < 3 {
+		a, ok := p.Acquire()
+		if !ok {
+			break
+		}
+		p.Release(a)
+		got++
+	}
+	cancel()
+	wg.Wait()
+	vCheck("D3.run.finished", done)
+	if E == 0 {
+		vCheck("D1.empty.source.delivers.nothing", got == 0)
+	}
+	vObserve("got", int64(got))
+	vReach("end")
+}
